@@ -64,6 +64,12 @@ def _corpus_programs():
                                             F(4, "P", I(4))], "mw": True})
     ps.append({"op": "mutation", "fields": [F(0, "D", ["obj", [F(1, "D", ["obj", [F(2, "C", I(2))]])]]), F(3, "S", I(3))],
                "layout": "shared"})
+    # the failing resolver raises an application ResolverError subclass with a domain constructor /
+    # a shared module-level instance; the later top-level fields still run
+    ps.append({"op": "mutation", "fields": [F(0, "C", ["err", 3], sh="i"), F(1, "C", I(1)), F(2, "S", ["err", 5], sh="i"),
+                                            F(3, "P", ["err", 5], sh="o"), F(4, "S", ["err", 4], nn=True, sh="in"), F(5, "C", I(5))]})
+    ps.append({"op": "mutation", "fields": [F(0, "S", ["obj", [F(1, "C", ["err", 2], sh="i"), F(2, "D", ["err", 3], sh="i")]]),
+                                            F(3, "C", I(3))]})
     return ps
 
 
@@ -82,7 +88,7 @@ def _with_error_at(prog, i):
     p = copy.deepcopy(prog)
     f = p["fields"][i]
     f["sh"] = sp.shape_of(f)
-    f["b"] = ["err"]
+    f["b"] = ["err", (i * 2 + 3) % sp.N_ERR_VARIANTS]
     return p
 
 
